@@ -534,12 +534,16 @@ Inductive rd :=
 | RdEmpty.                         (* logged, {} returned *)
 Fixpoint index_of (k : str) (l : list str) (i : nat) : option nat :=
   match l with [] => None | x :: r => if eqs x k then Some i else index_of k r (S i) end.
+(* the entry path a virtual path asks for (repaired read_file) *)
+Definition pbo_wanted (v : str) : str :=
+  let w := relative_path (lexnorm (SL :: v)) in
+  if ends_sl w then parent_path w else w.
 Definition pbo_entry_name (prefix v : str) (names : list str) : str :=
   if d_pbo_substr d then
     let pp := if (length prefix + 1 <? length v)%nat then skipn (length prefix + 1) v else v in   (* :364-367 *)
     map (fun c => if c =? SL then BS else c) pp                        (* :368 *)
   else
-    let wanted := relative_path (lexnorm (SL :: v)) in
+    let wanted := pbo_wanted v in
     match find (fun nm => eqs (entry_path prefix nm) wanted) names with
     | Some nm => nm
     | None => v
